@@ -2,10 +2,10 @@
    Only statements, closed by `exact` (short glue allowed), each followed by Print Assumptions.
    Model: Graph/Heap.v (node heap, WF), Graph/Ops.v (LinkedGraph methods), Graph/OpsSpec.v
    (set-level specification, domain guards, agree / holds_b).
-   Proofs: Graph/OpsBase.v OpsDfs.v OpsProofs.v OpsProofs2.v OpsChar.v OpsAcyclic.v OpsRefine.v OpsOracle.v. *)
+   Proofs: Graph/OpsBase.v OpsDfs.v OpsProofs.v OpsProofs2.v OpsChar.v OpsAcyclic.v OpsRefine.v OpsOracle.v OpsSink.v. *)
 From Coq Require Import List Bool Arith.
 From GolemV Require Import Graph.Heap Graph.Ops Graph.OpsSpec Graph.OpsBase Graph.OpsDfs Graph.OpsProofs
-  Graph.OpsProofs2 Graph.OpsChar Graph.OpsAcyclic Graph.OpsRefine Graph.OpsOracle.
+  Graph.OpsProofs2 Graph.OpsChar Graph.OpsAcyclic Graph.OpsRefine Graph.OpsOracle Graph.OpsSink.
 Import ListNotations.
 
 (* ---------------------------------------------------------------- the oracle decides the stated notions *)
@@ -109,9 +109,15 @@ Print Assumptions C04_disconnect_cleanup_refines_partial.
        a_eqb (abs (fst s') (snd s')) (spec_update_node (universe (fst s)) (abs (fst s) (snd s)) old new) = true
      ... run_op s (OUpdSub old new) = Ok s' ->
        a_eqb (abs (fst s') (snd s')) (spec_update_subtree (universe (fst s)) (abs (fst s) (snd s)) old new) = true
-   Missing: sort_nodes keeps the member set (in an acyclic parent-closed graph with a single
-   childless node every member is an ancestor of it).  Proved parts: the exact parent sets after
-   update_node, and the composition of the result of update_subtree. *)
+   Proved parts: the exact parent sets after update_node, the composition of the result of
+   update_subtree, and "sort_nodes keeps the member set of an acyclic graph".  Missing: the
+   assembly (ancestor closure over the abstract edge relation of the specification = closure over
+   the heap after re-pointing; renaming of the copied sub-heap). *)
+Theorem C04_sort_nodes_keeps_members : forall h g g', WF h g -> acyclic h g -> sort_nodes h g = Ok g' ->
+  forall x, In x g' <-> In x g.
+Proof. exact sort_nodes_keeps. Qed.
+Print Assumptions C04_sort_nodes_keeps_members.
+
 Theorem C04_update_node_result_partial : forall h g old new, WF h g -> guard_b (h, g) (OUpdNode old new) = true ->
   exists h2 g3, update_node h g old new = Ok (h2, g3) /\ WF h2 g3 /\
     (length h2 = length h /\
